@@ -6,6 +6,14 @@ ACTIONS = ('decline', 'hook', 'trans', 'exit', 'entry', 'init')
 CALLSIG = {'ENTRY_SIGNAL': 'ENTRY', 'EXIT_SIGNAL': 'EXIT', 'INIT_SIGNAL': 'INIT'}
 
 
+def fname(run, state):
+  """the __name__ of the state function of `state` (what miros' instrumentation prints)"""
+  if run.build is None or run.build.kind not in ('closure', 'closure-spied'):
+    return state      # template/factory/to_code states are named after the state
+  st = run.spec.states.get(state)
+  return st.get('fn_name', state) if st is not None else state
+
+
 def segments(ob):
   """split the handler records of one op into per-dispatch segments.
   returns list of (marker or None, recs)"""
@@ -232,7 +240,7 @@ def check_state_reports(run, res):
     cur = ob.state
     if expected is not None and cur != expected:
       continue   # a C01-type divergence: attributed there, not here
-    if ob.state_name != cur:
+    if ob.state_name != fname(run, cur):
       res.violate('state-name', {'after': 'start' if ob.op[0] == 'start' else 'step'},
                   'after op#%d %s (host=%s build=%s) state_name=%r but the current state is %r' % (i, ob.op, run.host, run.build.kind, ob.state_name, cur))
       return
@@ -241,7 +249,7 @@ def check_state_reports(run, res):
                   'after op#%d %s (host=%s build=%s) state_fn=%r is not the handler of %r' % (i, ob.op, run.host, run.build.kind, ob.state_fn_name, cur))
       return
     if ob.current_state is not None and ob.instrumented and run.build.kind != 'closure':
-      if ob.current_state != cur:
+      if ob.current_state != fname(run, cur):
         res.violate('current-state', {}, 'after op#%d %s current_state()=%r but the current state is %r' % (i, ob.op, ob.current_state, cur))
         return
 
@@ -334,8 +342,9 @@ class SpyModel(object):
   """expected spy lines computed from the handler-side records (closure-spied builds:
   every handler invocation leaves a 'call' record)"""
 
-  def __init__(self):
+  def __init__(self, namef=None):
     self.deferred = []     # signal names, oldest first (mirrors chart.defer_queue)
+    self.namef = namef or (lambda s: s)
 
   def lines(self, recs, cur_sig=None):
     out = []
@@ -345,9 +354,11 @@ class SpyModel(object):
         if pending:
           out.append(pending)
           pending = None
-        out.append('%s:%s' % (sig, a))
+        out.append('%s:%s' % (sig, self.namef(a)))
       elif what == 'hook':
-        pending = '%s:%s:HOOK' % (sig, a)
+        pass      # the HOOK line is written when the handler returns (see hook_end)
+      elif what == 'hook_end':
+        out.append('%s:%s:HOOK' % (sig, self.namef(a)))
       elif what == 'fx':
         op = a
         if op == 'post_fifo':
@@ -393,7 +404,7 @@ def check_spy(run, res):
   from sim import seams
   H = seams.mods['hsm'].HsmEventProcessor
   SPY, RTC = H.SPY_RING_BUFFER_SIZE, H.RTC_RING_BUFFER_SIZE
-  sm = SpyModel()
+  sm = SpyModel(lambda st: fname(run, st))
   host = run.host
   for i, ob in enumerate(run.steps):
     k = ob.op[0]
@@ -509,7 +520,7 @@ def check_trace(run, res):
         return
       tr = [t[:3] for t in ob.trace]
       start_state = ob.op[1]
-      first_ok = tr[:1] in ([('top', None, p['new'])], [('top', None, start_state)])
+      first_ok = tr[:1] in ([('top', None, fname(run, p['new']))], [('top', None, fname(run, start_state))])
       if not first_ok:
         res.violate('trace-start', {}, 'after start_at(%s) the trace is %s, expected one record top -> %s' % (start_state, tr, p['new']))
         return
@@ -517,7 +528,7 @@ def check_trace(run, res):
       exp = tr[:1]
       for s in (p.get('steps') or []):
         if s and s['kind'] == 'trans':
-          exp.append((s['prev'], s['sig'], s['new']))
+          exp.append((fname(run, s['prev']), s['sig'], fname(run, s['new'])))
       if tr != exp[-TRC:]:
         res.violate('trace-step', {'kind': 'after-start'}, 'after start_at the trace is %s, expected %s' % (tr, exp))
         return
@@ -526,7 +537,7 @@ def check_trace(run, res):
       preds = ob.pred.get('steps') if 'steps' in ob.pred else [ob.pred]
       if any(p is None for p in preds):
         return
-      exp_new = [(p['prev'], p['sig'], p['new']) for p in preds if p['kind'] == 'trans']
+      exp_new = [(fname(run, p['prev']), p['sig'], fname(run, p['new'])) for p in preds if p['kind'] == 'trans']
       before = [t[:3] for t in ob.trace_before]
       after = [t[:3] for t in ob.trace]
       exp = (before + exp_new)[-TRC:]
